@@ -402,3 +402,18 @@ package bgp
 //@   modifies nothing
 //@ func ParseBGPMessage
 //@   modifies nothing
+
+// ---------------------------------------------------------------------------------------------
+// AS_PATH length (C03 "shortest AS_PATH": a SEQUENCE counts its members, a SET counts 1, confederation segments 0)
+//@ props C03
+//@ interface AsPathParamInterface.ASLen
+//@   pure
+//@   ensures result >= 0
+//@ func (*AsPathParam).ASLen
+//@   pure
+//@   modifies nothing
+//@   ensures result == (a.Type == 2 ? len(a.AS) : (a.Type == 1 ? 1 : 0))
+//@ func (*As4PathParam).ASLen
+//@   pure
+//@   modifies nothing
+//@   ensures result == (a.Type == 2 ? len(a.AS) : (a.Type == 1 ? 1 : 0))
